@@ -21,6 +21,60 @@ Theorem C09_ignored_event_is_noop :
 Proof. exact step_ignored. Qed.
 Print Assumptions C09_ignored_event_is_noop.
 
+(* "asks the event loop to start repeating EXACTLY WHEN the mapping it fired has
+   a Special repeat, and then with exactly that mapping's repeat keys, delay
+   and interval": both directions, for every layout, state and event.  In
+   particular a Normal mapping that merely overlaps a Special one never starts
+   a repeat, and no release ever does. *)
+Theorem C09_repeating_iff_special_mapping_fired :
+  forall (is_action : key -> bool) (L : layout) (s : state) (e : event)
+         (ks : list key) (d i : Z),
+    snd (fst (step is_action L s e)) = RRRepeating ks d i <->
+    exists k m, e = Pressed k /\ fired L s k = Some m /\ m_repeat m = RSpecial ks d i.
+Proof. exact step_repeating_iff. Qed.
+Print Assumptions C09_repeating_iff_special_mapping_fired.
+
+(* A repeat never survives the release of its trigger (nor of any other key the
+   mapper considers held). *)
+Theorem C09_release_of_held_key_cancels :
+  forall (is_action : key -> bool) (L : layout) (s : state) (k : key),
+    mem k (inp s) = true ->
+    snd (fst (step is_action L s (Released k))) = RRDisabled.
+Proof. exact step_release_cancels. Qed.
+Print Assumptions C09_release_of_held_key_cancels.
+
+(* A press the mapper acts on that fires nothing, or a mapping whose repeat is
+   not Special, cancels repeating. *)
+Theorem C09_press_without_special_cancels :
+  forall (is_action : key -> bool) (L : layout) (s : state) (k : key),
+    mem k (inp s) = false ->
+    (forall m ks d i, fired L s k = Some m -> m_repeat m <> RSpecial ks d i) ->
+    snd (fst (step is_action L s (Pressed k))) = RRDisabled.
+Proof. exact step_press_non_special_cancels. Qed.
+Print Assumptions C09_press_without_special_cancels.
+
+(* NoChange is the answer to ignored events and to nothing else: a duplicate
+   press does not cancel, and nothing the mapper acts on leaves the repeat
+   state as it was. *)
+Theorem C09_nochange_iff_ignored :
+  forall (is_action : key -> bool) (L : layout) (s : state) (e : event),
+    snd (fst (step is_action L s e)) = RRNoChange <->
+    (match e with Pressed k => mem k (inp s) = true | Released k => mem k (inp s) = false end).
+Proof. exact step_nochange_iff. Qed.
+Print Assumptions C09_nochange_iff_ignored.
+
+(* Non-vacuity of the cancel theorems: with the Special mapping's trigger held,
+   its release is acted on and answers Disabled; pressing an unmapped key too. *)
+Example C09_example_cancel :
+  let L := [mkMapping [30%N] [48%N] (RSpecial [190%N] 200 30) []] in
+  let ia := fun k => negb (N.eqb k 42) in
+  let s1 := snd (step ia L init (Pressed 30%N)) in
+  mem 30%N (inp s1) = true /\
+  snd (fst (step ia L s1 (Released 30%N))) = RRDisabled /\
+  snd (fst (step ia L s1 (Pressed 31%N))) = RRDisabled /\
+  snd (fst (step ia L s1 (Pressed 30%N))) = RRNoChange.
+Proof. vm_compute. repeat split; reflexivity. Qed.
+
 (* Non-vacuity: a Special mapping on a concrete layout does request repeating. *)
 Example C09_example :
   snd (fst (step (fun k => negb (N.eqb k 42)) 
